@@ -21,14 +21,34 @@ EXTENDS Graph
 CONSTANTS NObjs,     \* design model: node objects observer 1 may use
           EObjs,     \* design model: edge objects observer 1 may use
           Idxs,      \* design model: indices that may be set explicitly
-          MaxObs     \* design model: 1 = no copies, 2 = one copy may exist
+          MaxObs,    \* design model: 1 = no copies, 2 = one copy may exist
+          WithClone  \* design model: TRUE = the graph itself may be copied (second side)
 
 None == -1
 CopyShift == 1000
 
-VARIABLES alive, ob, rf
-ovars == <<alive, ob, rf>>
-vars  == <<gvars, alive, ob, rf>>
+\* A copy of the GRAPH (GlobalGraph copy constructor / clone) is a second "side":
+\* a graph of its own, with its own observers (none at first).  One side is
+\* active - all the variables above describe it and every call acts on it - the
+\* other one is parked:
+\*   parked    = everything the parked side was when it was last active
+\*               (reference and views), [has |-> FALSE] when there is no copy
+\*   parkedNow = the views of the parked side as they are now (design model:
+\*               what the algorithms do to it; traces: read back after every call)
+\* "A later call on either side never changes the other" is SidesIndependent:
+\* parkedNow always equals the views recorded in parked.
+VARIABLES alive, ob, rf, parked, parkedNow
+ovars == <<alive, ob, rf, parked, parkedNow>>
+vars  == <<gvars, alive, ob, rf, parked, parkedNow>>
+
+NoSide == [has |-> FALSE]
+ThisSide(isClone) ==
+  [has |-> TRUE, clone |-> isClone, directed |-> directed, nodes |-> nodes, edges |-> edges,
+   nextN |-> nextN, nextE |-> nextE, outT |-> outT, inT |-> inT, edgeT |-> edgeT, dirT |-> dirT,
+   alive |-> alive, ob |-> ob, rf |-> rf]
+SideViews(sd) == IF sd.has THEN [has |-> TRUE, outT |-> sd.outT, inT |-> sd.inT, edgeT |-> sd.edgeT,
+                                  dirT |-> sd.dirT, ob |-> sd.ob]
+                 ELSE NoSide
 
 Inv(f)        == [y \in Rng(f) |-> CHOOSE x \in DOMAIN f : f[x] = y]
 Injective(f)  == \A x, y \in DOMAIN f : f[x] = f[y] => x = y
@@ -56,7 +76,7 @@ ApplyO(k, x) ==
   /\ rf' = [j \in alive |->
               ForgetR(IF j = k /\ out' = "ok" /\ x.g.mayOk THEN x.R ELSE rf[j],
                       nodes \ nodes', DOMAIN edges \ DOMAIN edges')]
-  /\ UNCHANGED alive
+  /\ UNCHANGED <<alive, parked>>
 OnGraph(g) == [g |-> g, R |-> EmptyRf]
 
 \* an object that loses its association by an explicit user request keeps or
@@ -151,13 +171,17 @@ ESetEdgeLinking(R, oa, ob2, eo, tgt, keepOld) ==
   IN OEff(x.g, x.g.mayOk /\ S # {}, x.g.mayRaise \/ S = {}, x.R)
 
 \* a copy owns fresh objects with the same relations and the same indices
-Shift(o) == o + CopyShift
-CopyOf(R) ==
-  [nObj |-> [n \in DOMAIN R.nObj |-> Shift(R.nObj[n])],
-   nIdx |-> [o2 \in {Shift(o) : o \in DOMAIN R.nIdx \cap Rng(R.nObj)} |-> R.nIdx[o2 - CopyShift]],
-   eObj |-> [e \in DOMAIN R.eObj |-> Shift(R.eObj[e])],
-   eIdx |-> [o2 \in {Shift(o) : o \in DOMAIN R.eIdx \cap Rng(R.eObj)} |-> R.eIdx[o2 - CopyShift]],
+\* the objects of observer k are named (k-1) * CopyShift + label; a copy made for observer k keeps the label
+Ren(o, k) == (o % CopyShift) + (k - 1) * CopyShift
+Shift(o) == Ren(o, 2)
+CopyInto(R, k) ==
+  LET no == DOMAIN R.nIdx \cap Rng(R.nObj)  eo == DOMAIN R.eIdx \cap Rng(R.eObj) IN
+  [nObj |-> [n \in DOMAIN R.nObj |-> Ren(R.nObj[n], k)],
+   nIdx |-> [o2 \in {Ren(o, k) : o \in no} |-> R.nIdx[CHOOSE o \in no : Ren(o, k) = o2]],
+   eObj |-> [e \in DOMAIN R.eObj |-> Ren(R.eObj[e], k)],
+   eIdx |-> [o2 \in {Ren(o, k) : o \in eo} |-> R.eIdx[CHOOSE o \in eo : Ren(o, k) = o2]],
    looseN |-> {}, looseE |-> {}]
+CopyOf(R) == CopyInto(R, 2)
 
 RefCopy ==      \* observer 2 := copy of observer 1
   /\ out' \in {"ok", "raise"}
@@ -165,7 +189,7 @@ RefCopy ==      \* observer 2 := copy of observer 1
   /\ IF out' = "ok" /\ alive = {1}
      THEN alive' = {1, 2} /\ rf' = [j \in {1, 2} |-> IF j = 1 THEN rf[1] ELSE CopyOf(rf[1])]
      ELSE UNCHANGED <<alive, rf>>
-  /\ UNCHANGED refvars
+  /\ UNCHANGED <<refvars, parked>>
 
 RefDrop ==      \* the copy is destroyed
   /\ out' \in {"ok", "raise"}
@@ -173,6 +197,72 @@ RefDrop ==      \* the copy is destroyed
   /\ IF out' = "ok" /\ alive = {1, 2}
      THEN alive' = {1} /\ rf' = [j \in {1} |-> rf[1]]
      ELSE UNCHANGED <<alive, rf>>
+  /\ UNCHANGED <<refvars, parked>>
+
+\* dst = src (operator=): dst forgets everything it had and becomes a copy of src, on src's graph
+RefAssign(dst, src) ==
+  LET can == dst \in alive /\ src \in alive IN
+  /\ out' \in {"ok", "raise"}
+  /\ legal' = (out' = "ok" /\ can)
+  /\ IF out' = "ok" /\ can /\ dst # src
+     THEN rf' = [rf EXCEPT ![dst] = CopyInto(rf[src], dst)]
+     ELSE UNCHANGED rf
+  /\ UNCHANGED <<refvars, alive, parked>>
+
+\* an observer is attached to a graph that has none (constructor taking the graph)
+RefAttach ==
+  /\ out' \in {"ok", "raise"}
+  /\ legal' = (out' = "ok" /\ alive = {})
+  /\ IF out' = "ok" /\ alive = {}
+     THEN alive' = {1} /\ rf' = [j \in {1} |-> EmptyRf]
+     ELSE UNCHANGED <<alive, rf>>
+  /\ UNCHANGED <<refvars, parked>>
+
+\* the graph is copied: the copy has the same nodes and edges, and no observer
+RefClone ==
+  /\ out' \in {"ok", "raise"}
+  /\ legal' = (out' = "ok" /\ ~parked.has)
+  /\ IF out' = "ok" /\ ~parked.has
+     THEN parked' = [ThisSide(TRUE) EXCEPT !.alive = {}, !.ob = <<>>, !.rf = <<>>]
+     ELSE UNCHANGED parked
+  /\ UNCHANGED <<refvars, alive, rf>>
+
+\* the other side becomes the active one
+RefSwap ==
+  /\ out' \in {"ok", "raise"}
+  /\ legal' = (out' = "ok" /\ parked.has)
+  /\ IF out' = "ok" /\ parked.has
+     THEN /\ directed' = parked.directed /\ nodes' = parked.nodes /\ edges' = parked.edges
+          /\ nextN' = parked.nextN /\ nextE' = parked.nextE
+          /\ alive' = parked.alive /\ rf' = parked.rf
+          /\ parked' = ThisSide(~parked.clone)
+     ELSE UNCHANGED <<refvars, alive, rf, parked>>
+
+\* the copied graph (parked) is destroyed together with its observers
+RefDropClone ==
+  /\ out' \in {"ok", "raise"}
+  /\ legal' = (out' = "ok" /\ parked.has /\ parked.clone)
+  /\ IF out' = "ok" /\ parked.has /\ parked.clone THEN parked' = NoSide ELSE UNCHANGED parked
+  /\ UNCHANGED <<refvars, alive, rf>>
+
+\* observer k of this side = observer 1 of the other side: k leaves this graph and
+\* becomes observer 2 of the other graph, a copy of its observer 1
+\* the eight maps an observer must show for the association R
+ObOfRef(R) == [n2o |-> R.nObj, o2n |-> Inv(R.nObj), i2o |-> Inv(R.nIdx), o2i |-> R.nIdx,
+               e2o |-> R.eObj, o2e |-> Inv(R.eObj), j2o |-> Inv(R.eIdx), o2j |-> R.eIdx]
+CanAssignAcross(k) ==
+  /\ parked.has /\ k \in alive /\ \A j \in alive : j <= k
+  /\ parked.alive = {1}
+RefAssignAcross(k) ==
+  /\ out' \in {"ok", "raise"}
+  /\ legal' = (out' = "ok" /\ CanAssignAcross(k))
+  /\ IF out' = "ok" /\ CanAssignAcross(k)
+     THEN /\ alive' = alive \ {k} /\ rf' = [j \in alive \ {k} |-> rf[j]]
+          /\ parked' = [parked EXCEPT !.alive = {1, 2},
+                                      !.rf = [j \in {1, 2} |-> IF j = 1 THEN parked.rf[1] ELSE CopyInto(parked.rf[1], 2)],
+                                      !.ob = [j \in {1, 2} |-> IF j = 1 THEN parked.ob[1]
+                                                                 ELSE ObOfRef(CopyInto(parked.rf[1], 2))]]
+     ELSE UNCHANGED <<alive, rf, parked>>
   /\ UNCHANGED refvars
 
 \* ---------------------------------------------------------------- algorithms (transcription of the repaired observer)
@@ -189,8 +279,9 @@ CommitO(S, k, Onew) ==
   /\ Commit(S)
   /\ ob' = [j \in alive |-> AForget(IF j = k THEN Onew ELSE ob[j],
                                     DOMAIN outT \ DOMAIN S.o, DOMAIN edgeT \ DOMAIN S.e)]
-OkO(S, k, Onew) == out' = "ok" /\ CommitO(S, k, Onew)
-RaiseO == out' = "raise" /\ UNCHANGED viewvars /\ ob' = ob
+\* (the repaired algorithms of one side never touch the other side: parkedNow stays)
+OkO(S, k, Onew) == out' = "ok" /\ CommitO(S, k, Onew) /\ parkedNow' = parkedNow
+RaiseO == out' = "raise" /\ UNCHANGED viewvars /\ ob' = ob /\ parkedNow' = parkedNow
 
 AAssocN(O, o, n) == [O EXCEPT !.n2o = Put(O.n2o, n, o), !.o2n = Put(O.o2n, o, n)]
 AAssocE(O, o, e) == IF o = None THEN O ELSE [O EXCEPT !.e2o = Put(O.e2o, e, o), !.o2e = Put(O.o2e, o, e)]
@@ -203,17 +294,17 @@ OnGraphCall(A) ==
   /\ A
   /\ ob' = [j \in alive |-> AForget(ob[j], DOMAIN outT \ DOMAIN outT', DOMAIN edgeT \ DOMAIN edgeT')]
   /\ rf' = [j \in alive |-> ForgetR(rf[j], nodes \ nodes', DOMAIN edges \ DOMAIN edges')]
-  /\ UNCHANGED alive
+  /\ UNCHANGED <<alive, parked, parkedNow>>
 
 GCreateNode          == OnGraphCall(CreateNode)
 GCreateNodeFromNode  == \E o \in Ids : OnGraphCall(CreateNodeFromNode(o))
 GCreateNodeOnEdge    == \E x \in EIds : OnGraphCall(CreateNodeOnEdge(x))
 GCreateNodeFromEdge  == \E x \in EIds : OnGraphCall(CreateNodeFromEdge(x))
-GLink                == \E a, b \in Ids : (a # b \/ dirT) /\ OnGraphCall(Link(a, b))
+GLink                == \E a, b \in Ids : OnGraphCall(Link(a, b))
 GUnlink              == \E a, b \in Ids : OnGraphCall(Unlink(a, b))
 GDeleteNode          == \E n \in Ids : OnGraphCall(DeleteNode(n))
 GMakeDirected        == OnGraphCall(MakeDirected)
-GMakeUndirected      == (~\E n \in nodes : HasLoop(n)) /\ OnGraphCall(MakeUndirected)
+GMakeUndirected      == OnGraphCall(MakeUndirected)
 
 OCreateNode(k, o) ==
   /\ nextN < MaxN
@@ -308,27 +399,72 @@ SetEdgeLinking(k, oa, ob2, eo) ==
                /\ IF eo \in DOMAIN O.o2e \/ e \in DOMAIN O.e2o THEN RaiseO ELSE OkO(Cur, k, AAssocE(O, eo, e))
                /\ ApplyO(k, ESetEdgeLinking(rf[k], oa, ob2, eo, e, TRUE))
 
-ACopyOf(O) ==           \* copy constructor: one fresh object per associated object, index copied when there is one
-  [n2o |-> [n \in DOMAIN O.n2o |-> Shift(O.n2o[n])],
-   o2n |-> [o2 \in {Shift(o) : o \in DOMAIN O.o2n} |-> O.o2n[o2 - CopyShift]],
-   i2o |-> [i \in {O.o2i[o] : o \in DOMAIN O.o2i \cap DOMAIN O.o2n} |-> Shift(O.i2o[i])],
-   o2i |-> [o2 \in {Shift(o) : o \in DOMAIN O.o2i \cap DOMAIN O.o2n} |-> O.o2i[o2 - CopyShift]],
-   e2o |-> [e \in DOMAIN O.e2o |-> Shift(O.e2o[e])],
-   o2e |-> [o2 \in {Shift(o) : o \in DOMAIN O.o2e} |-> O.o2e[o2 - CopyShift]],
-   j2o |-> [i \in {O.o2j[o] : o \in DOMAIN O.o2j \cap DOMAIN O.o2e} |-> Shift(O.j2o[i])],
-   o2j |-> [o2 \in {Shift(o) : o \in DOMAIN O.o2j \cap DOMAIN O.o2e} |-> O.o2j[o2 - CopyShift]]]
+\* copy constructors and (repaired) operator=: one fresh object per associated object,
+\* index copied when there is one, nothing else kept
+ACopyInto(O, k) ==
+  LET Back(S, o2) == CHOOSE o \in S : Ren(o, k) = o2
+      ni == DOMAIN O.o2i \cap DOMAIN O.o2n  ei == DOMAIN O.o2j \cap DOMAIN O.o2e IN
+  [n2o |-> [n \in DOMAIN O.n2o |-> Ren(O.n2o[n], k)],
+   o2n |-> [o2 \in {Ren(o, k) : o \in DOMAIN O.o2n} |-> O.o2n[Back(DOMAIN O.o2n, o2)]],
+   i2o |-> [i \in {O.o2i[o] : o \in ni} |-> Ren(O.i2o[i], k)],
+   o2i |-> [o2 \in {Ren(o, k) : o \in ni} |-> O.o2i[Back(ni, o2)]],
+   e2o |-> [e \in DOMAIN O.e2o |-> Ren(O.e2o[e], k)],
+   o2e |-> [o2 \in {Ren(o, k) : o \in DOMAIN O.o2e} |-> O.o2e[Back(DOMAIN O.o2e, o2)]],
+   j2o |-> [i \in {O.o2j[o] : o \in ei} |-> Ren(O.j2o[i], k)],
+   o2j |-> [o2 \in {Ren(o, k) : o \in ei} |-> O.o2j[Back(ei, o2)]]]
+ACopyOf(O) == ACopyInto(O, 2)
 
 Copy ==
   /\ MaxObs >= 2 /\ alive = {1}
-  /\ out' = "ok" /\ UNCHANGED viewvars
+  /\ out' = "ok" /\ UNCHANGED viewvars /\ parkedNow' = parkedNow
   /\ ob' = [j \in {1, 2} |-> IF j = 1 THEN ob[1] ELSE ACopyOf(ob[1])]
   /\ RefCopy
 
 Drop ==
   /\ alive = {1, 2}
-  /\ out' = "ok" /\ UNCHANGED viewvars
+  /\ out' = "ok" /\ UNCHANGED viewvars /\ parkedNow' = parkedNow
   /\ ob' = [j \in {1} |-> ob[1]]
   /\ RefDrop
+
+Assign(dst, src) ==
+  /\ dst \in alive /\ src \in alive
+  /\ out' = "ok" /\ UNCHANGED viewvars /\ parkedNow' = parkedNow
+  /\ ob' = IF dst = src THEN ob ELSE [ob EXCEPT ![dst] = ACopyInto(ob[src], dst)]
+  /\ RefAssign(dst, src)
+
+Attach ==
+  /\ alive = {}
+  /\ out' = "ok" /\ UNCHANGED viewvars /\ parkedNow' = parkedNow
+  /\ ob' = [j \in {1} |-> EmptyOb]
+  /\ RefAttach
+
+Clone ==              \* repaired copy constructor: the observer registrations are not copied
+  /\ WithClone /\ ~parked.has
+  /\ out' = "ok" /\ UNCHANGED viewvars /\ ob' = ob
+  /\ RefClone
+  /\ parkedNow' = [has |-> TRUE, outT |-> outT, inT |-> inT, edgeT |-> edgeT, dirT |-> dirT, ob |-> <<>>]
+
+Swap ==
+  /\ parked.has
+  /\ out' = "ok"
+  /\ outT' = parkedNow.outT /\ inT' = parkedNow.inT /\ edgeT' = parkedNow.edgeT /\ dirT' = parkedNow.dirT
+  /\ ob' = parkedNow.ob
+  /\ RefSwap
+  /\ parkedNow' = [has |-> TRUE, outT |-> outT, inT |-> inT, edgeT |-> edgeT, dirT |-> dirT, ob |-> ob]
+
+DropClone ==
+  /\ parked.has /\ parked.clone
+  /\ out' = "ok" /\ UNCHANGED viewvars /\ ob' = ob
+  /\ RefDropClone
+  /\ parkedNow' = NoSide
+
+AssignAcross(k) ==    \* repaired operator=: leaves the old graph, registers with the new one
+  /\ CanAssignAcross(k)
+  /\ out' = "ok" /\ UNCHANGED viewvars
+  /\ ob' = [j \in alive \ {k} |-> ob[j]]
+  /\ parkedNow' = [parkedNow EXCEPT !.ob = [j \in {1, 2} |-> IF j = 1 THEN parkedNow.ob[1]
+                                                             ELSE ACopyInto(parkedNow.ob[1], 2)]]
+  /\ RefAssignAcross(k)
 
 \* ---------------------------------------------------------------- design-model next-state relation
 NO(k) == Pool(k)                   \* node objects a call may name (associated or not)
@@ -336,8 +472,7 @@ EO(k) == EPool(k) \cup {None}
 
 DCreateNode      == \E k \in alive : \E o \in NO(k) : OCreateNode(k, o)
 DCreateNodeFrom  == \E k \in alive : \E of, o \in NO(k) : \E eo \in EO(k) : OCreateNodeFrom(k, of, o, eo)
-DLink            == \E k \in alive : \E oa, ob2 \in NO(k) : \E eo \in EO(k) :
-                       (oa # ob2 \/ dirT) /\ OLink(k, oa, ob2, eo)
+DLink            == \E k \in alive : \E oa, ob2 \in NO(k) : \E eo \in EO(k) : OLink(k, oa, ob2, eo)
 DUnlink          == \E k \in alive : \E oa, ob2 \in NO(k) : OUnlink(k, oa, ob2)
 DDeleteNode      == \E k \in alive : \E o \in NO(k) : ODeleteNode(k, o)
 DAssocNode       == \E k \in alive : \E o \in NO(k) : \E n \in Ids : AssocNode(k, o, n)
@@ -350,23 +485,32 @@ DAddNodeIndex    == \E k \in alive : \E o \in NO(k) : AddNodeIndex(k, o)
 DAddEdgeIndex    == \E k \in alive : \E o \in EPool(k) : AddEdgeIndex(k, o)
 DSetEdgeLinking  == \E k \in alive : \E oa, ob2 \in NO(k) : \E eo \in EPool(k) : SetEdgeLinking(k, oa, ob2, eo)
 
+DAssign          == \E dst, src \in alive : Assign(dst, src)
+DAssignAcross    == \E k \in alive : AssignAcross(k)
+
 ObsNext ==
   \/ GCreateNode \/ GCreateNodeFromNode \/ GCreateNodeOnEdge \/ GCreateNodeFromEdge
   \/ GLink \/ GUnlink \/ GDeleteNode \/ GMakeDirected \/ GMakeUndirected
   \/ DCreateNode \/ DCreateNodeFrom \/ DLink \/ DUnlink \/ DDeleteNode
   \/ DAssocNode \/ DAssocEdge \/ DDissocNode \/ DDissocEdge
   \/ DSetNodeIndex \/ DSetEdgeIndex \/ DAddNodeIndex \/ DAddEdgeIndex \/ DSetEdgeLinking
-  \/ Copy \/ Drop
+  \/ Copy \/ Drop \/ DAssign \/ Attach
+  \/ Clone \/ Swap \/ DropClone \/ DAssignAcross
 
 ObsInit(d) ==
   /\ GraphInit(d)
   /\ alive = {1} /\ ob = [j \in {1} |-> EmptyOb] /\ rf = [j \in {1} |-> EmptyRf]
+  /\ parked = NoSide /\ parkedNow = NoSide
 
 OInit == \E d \in BOOLEAN : ObsInit(d)
 OSpec == OInit /\ [][ObsNext]_vars
 
 \* ---------------------------------------------------------------- the property (association part)
-OTypeOK == alive \in {{1}, {1, 2}} /\ DOMAIN ob = alive /\ DOMAIN rf = alive
+OTypeOK == alive \in {{}, {1}, {1, 2}} /\ DOMAIN ob = alive /\ DOMAIN rf = alive /\ parked.has = parkedNow.has
+
+\* a call on one side (graph + its observers) never changes the other side: the copy of a
+\* graph shares nothing with the original, an observer assigned away no longer listens to its old graph
+SidesIndependent == parkedNow = SideViews(parked)
 
 \* each live node / edge has at most one object, identifier and index, and back again
 OneToOne ==
@@ -417,7 +561,7 @@ CopyIndependent ==
 
 \* ... and right after the copy it has the same relations and indices (action property)
 CopySame ==
-  [][(alive = {1} /\ alive' = {1, 2}) =>
+  [][(alive = {1} /\ alive' = {1, 2} /\ parked' = parked) =>
         /\ rf'[1] = rf[1] /\ ob'[1] = ob[1]
         /\ DOMAIN rf'[2].nObj = DOMAIN rf[1].nObj /\ DOMAIN rf'[2].eObj = DOMAIN rf[1].eObj
         /\ \A n \in DOMAIN rf[1].nObj :
@@ -429,12 +573,12 @@ CopySame ==
 
 \* a call on one observer that deletes nothing leaves the other observer's association alone
 Independent ==
-  [][(alive' = alive /\ nodes' = nodes /\ DOMAIN edges \subseteq DOMAIN edges') =>
+  [][(alive' = alive /\ parked' = parked /\ nodes' = nodes /\ DOMAIN edges \subseteq DOMAIN edges') =>
         \A k \in alive : (rf'[k] # rf[k]) => \A j \in alive \ {k} : rf'[j] = rf[j] /\ ob'[j] = ob[j]]_vars
 
 \* a call that raises changes nothing at all (2k)
 RaiseKeepsState ==
-  [][(out' = "raise") => UNCHANGED <<refvars, viewvars, alive, ob, rf>>]_vars
+  [][(out' = "raise") => UNCHANGED <<refvars, viewvars, alive, ob, rf, parked, parkedNow>>]_vars
 
 CONSTANT MaxDepth        \* history-length bound used by ObserverMC.tla (0 = none)
 =============================================================================
